@@ -161,7 +161,7 @@ def tlc(module, cfg, workers=NCPU, env=None, timeout=3600, extra=(), xmx='8g', c
     jopts = ['-XX:+UseParallelGC', '-Xss64m', '-Xmx' + xmx]
     if dfs:
         jopts.append('-Dtlc2.tool.queue.IStateQueue=StateDeque')
-    cmd = ['java'] + jopts + ['-cp', JAR, 'tlc2.TLC', '-workers', str(workers), '-metadir', meta,
+    cmd = ['java'] + jopts + ['-cp', JAR, 'tlc2.TLC', '-noGenerateSpecTE', '-workers', str(workers), '-metadir', meta,
                               '-config', cfg] + list(extra) + [module]
     e = dict(os.environ)
     if env:
